@@ -44,6 +44,9 @@ def gen(rng, tier, index):
     n_lines = rng.randint(8, 40) if roll < 0.72 else (rng.randint(60, 160) if roll < 0.95 else rng.randint(280, 420))
     ops = netgen.make_ops(rng, version, n_lines, WEIGHTS, nodes=(1, 3), scenario=0.3)
     stream = bytearray()
+    if rng.random() < 0.15:
+        # boot noise in front of the first frame (what a gateway emits while it resets): part of that first line
+        stream += rng.choice([b"\x00\x00", b"\x00\x00\x00", b"\x00\x00\x00\x00\x00", b"\xff\x00", b"\x00\xfe\x00"])
     line_ends = []
     for op in ops:
         if op[0] != "line":
